@@ -103,7 +103,30 @@ func HarnessC07HistoryIndependence() {
 			verifrt.Assert(!machine.running, "not-running-after-failed-call")
 		}
 	}
-	switch verifrt.Choose(4) {
+	switch verifrt.Choose(5) {
+	case 4:
+		// the same compiled code run twice, the host changing a global in between:
+		// the second run sees the new value
+		code4 := c07Compile("a * 2 + b", names)
+		verifrt.Assert(code4 != nil, "setup-compiles")
+		if code4 == nil {
+			return
+		}
+		err := machine.RunCode(ctx, code4)
+		verifrt.Assert(err == nil, "runcode-after-history-succeeds")
+		g2 := map[string]any{}
+		for k, v := range globals {
+			g2[k] = v
+		}
+		g2["a"] = object.NewInt(b)
+		err = machine.RunCode(ctx, code4, WithGlobals(g2))
+		verifrt.Reach("runcode-same-code-twice")
+		verifrt.Assert(err == nil, "second-run-of-the-same-code-succeeds")
+		if err == nil {
+			tos, ok := machine.TOS()
+			iv, isInt := asInt(tos)
+			verifrt.Assert(ok && isInt && iv == b*2+b, "second-run-of-the-same-code-sees-the-new-globals")
+		}
 	case 3:
 		// a module configured as a global is importable whatever came before
 		code3 := c07Compile("import cfgmod\ncfgmod.twice(b)", names)
